@@ -29,6 +29,92 @@ CLAIMED = {
         'physical payload not modelled here (only which stage touched which channel). Trusted: Coq kernel + vm_compute, '
         'generators, text bridge.',
         'DESIGN.md §7 C07'),
+    'C03': (
+        'Coq proof over the reals about a Num-polymorphic Gallina transcription of the GN closed form + the same term '
+        'run at binary64 (PrimFloat, vm_compute) against NliSolver.compute_nli + scaling-law oracles on the implementation',
+        'Non-negativity, cube law for every real k, monotonicity in every power, added channel, permutation invariance '
+        'and the closed form with 16/27 / 32/27 are proved over Coq reals for all fibres/combs about the transcription of '
+        '_gn_analytic/_psi/Fiber.alpha/beta2/gamma; the same term at binary64 agrees with compute_nli to ~3e-13 on random '
+        'fibres x combs (200 quick / 3000 thorough).',
+        'Standard real-number axioms (sig_not_dec, sig_forall_dec, functional_extensionality_dep, classic). NumF '
+        '(PrimFloat exp/ln/asinh by range reduction) approximating NumR is trusted, self-tested against libm each run. '
+        'GGN methods out of scope (the statement is about the analytic method).',
+        'DESIGN.md §7 C03'),
+    'C04': (
+        'Coq proof (clamp over Q, closed; NF/ASE/band/flat profile over reals) + Num-polymorphic correspondence with '
+        'Edfa/Multiband_amplifier on every shipped library entry + oracles on the implementation',
+        'Clamp min(set, p_max - total pin): at most set, at most p_max, minimal, greatest; variable-gain NF: nf_min at '
+        'flatmax and nf_max at gain_min (exact unclipped, within 0.01 dB for every accepted datasheet), antitone, dB-for-dB '
+        'padding; ASE = G(ase_in + hfB NF); out-of-band channels dropped; flat profile mean = effective gain.',
+        'Fixed-gain / OpenROADM / polynomial / dual-stage NF formulas and the tilted (DGT) profile are tied by '
+        'correspondence only (0.3 dB oracle). Real axioms for the R theorems; NumF~NumR trusted. Open finding: flat DGT + tilt.',
+        'DESIGN.md §7 C04'),
+    'C06': (
+        'Coq proof over a dB-domain Q model of Roadm.propagate, target resolution, per-degree target population and the '
+        'single-policy checks + element-level and loader-level correspondence (vm_compute) + oracle on observed powers',
+        'For every ROADM configuration, degree pair and spectrum of the model: out = min(target+offset, pin-loss), no '
+        'gain, cap, exactness, shares untouched, resolution degree>node, design step preserves targets, exactly-one-policy '
+        'acceptance/rejection; run against the real Roadm.__call__, json_io/RoadmParams loading and design (1e-9 dB).',
+        'Harness-computed log10 values for PSD/PSW/baud/slot enter the model as inputs. set_targets_ok proved outside the '
+        'open finding F12 (0 dBm node target; refutation witness included); null policy values (F16) excluded from '
+        'one_policy_accepted. PMD/PDL quadrature checked by the oracle only.',
+        'DESIGN.md §7 C06'),
+    'C09': (
+        'Coq proof over a Q model of the power design (budget closure by induction along any OMS, power rule, saturation, '
+        'VOA rule) + per-OMS designed-value correspondence on random networks + two oracles (static budget/rule, propagated '
+        'design comb)',
+        'Budget closure from loaded elements through connector/EOL/padding to every amplifier, round2float grid, clamp, '
+        '0 before a ROADM, saturation reduction, operator-kept settings and VOA rule proved about Model/PowerDesign.v; '
+        'three guarded clauses carry vm_compute refutation witnesses = open findings.',
+        'RamanFiber spans, Multiband_amplifier nodes and SRS tilt are not modelled (such OMS are counted as unsupported); '
+        'NF values and design bands are read from gnpy as inputs.',
+        'DESIGN.md §7 C09'),
+    'C10': (
+        'Coq proof over a Q model of get_node_restrictions / filter_edfa_list_based_on_targets / select_edfa + '
+        'correspondence on select_edfa called directly and on every amplifier node of auto-designed networks + brute-force oracle',
+        'Restriction precedence, permitted/band/Raman-only-if-allowed, capable => chosen capable and quietest (first '
+        'minimum), exact fall-back and error behaviour proved for every library, NF assignment and target.',
+        'NF per candidate is an input (C04 owns the NF model). Multiband preselection (preselect_multiband_amps) is not modelled.',
+        'DESIGN.md §7 C10'),
+    'C11': (
+        'Proved validator (route_ok) + proved-complete DFS reference search (model_route) + potential certificates, '
+        'applied in Coq to every path gnpy returns; faithful models of ispart/explicit_path/compute_constrained_path/'
+        'correct_json_route_list/find_reversed_path compared per request',
+        'Validator reflection (walk, loop-free, ends, includes in order), completeness of the enumeration, optimality / '
+        'NO_PATH / NO_PATH_WITH_CONSTRAINT / LOOSE fall-back specification of model_route, explicit answers are routes, '
+        'reverse path visits the same sites; 2-8 ROADM meshes judged exhaustively, 12-40 site meshes by route_ok + '
+        '(leg-wise) potential certificates.',
+        'networkx path enumeration is not modelled (its outputs are judged). Optimality of a validated explicit path is '
+        'checked per instance, not proved. No parallel lines between two sites.',
+        'DESIGN.md §4(b), §7 C11'),
+    'C12': (
+        'Proved validators (disjoint_ok on unordered ROADM links, route_ok) + proved-complete exists_disjoint_pair; '
+        'faithful models of isdisjoint / short list / deduplicate_disjunctions / requests_aggregation compared per batch',
+        'Every returned set of paths is judged in Coq against the groups as declared; DisjunctionError on single pairs is '
+        'judged by the complete existence procedure (<= 80 elements); dedup and aggregation groups_preserved proved.',
+        'The five pruning steps of compute_path_dsjctn are not modelled (outputs judged); completeness judged for '
+        'single-pair batches only; multi-group DisjunctionErrors counted, not judged.',
+        'DESIGN.md §4(b), §7 C12'),
+    'C15': (
+        'Coq proof over Z/Q about Model/Oms.v (slot<->frequency, create_oms_bitmap, align_grids, same extent, common range, '
+        'OMS partition, reverse pairing, whole build_oms_list on chain-structured graphs) + correspondence on align_grids / '
+        'create_oms_bitmap / build_oms_list + oracle on the implementation',
+        'Round trips (exact over Q; finite PrimFloat instance for n in [-4000,4000]), bitmap length/marks, align_spec for '
+        'all lists of well-formed maps, pointwise soundness/completeness of find_common_range, partition + pairing; the '
+        'theorem hypotheses are decidable and evaluated in Coq on every explored network.',
+        'Four open findings have refuted-statement theorems. Off-grid band edges are compared but the FREE-exactly clause '
+        'is only counted there. The PrimFloat theorem depends on the kernel float primitives.',
+        'DESIGN.md §7 C15'),
+    'C18': (
+        'Coq proof over a JSON AST with exact decimals (null handling, decimal formatting/parsing, convert_dict/convert_back, '
+        'structural converter pairs, dispatch round trip) with the precision table regenerated from precision_dict.py on '
+        'every run + model/implementation correspondence + implementation-level oracle on all converters and loaders',
+        'None<->[None], fmt/parse exact within declared digits and rounded once beyond, whole-document convert/back, six '
+        'structural converter pairs, full dispatch round trip and idempotence for sim-params/spectrum/service documents, '
+        'Edfa alias specification; refutation witnesses for the open findings.',
+        'Topology and equipment documents: per-converter + generic-layer theorems only; their composition, the loaders, '
+        'libyang acceptance and the API section are covered by the oracle and correspondence only.',
+        'DESIGN.md §7 C18'),
 }
 
 NOT_YET = {}
